@@ -1,4 +1,5 @@
 import Driver.Util
+import Driver.Object
 
 /- Driver ops for jtp (C03, C04, C05). -/
 open Lean Drv
@@ -24,7 +25,7 @@ def jtpLineOp (op : String) (j : Json) : Except String Res := do
 
 structure Doc where
   stamp : Str
-  deriving Repr
+  tree : Option JVal := none
 
 /-- Build the `Env` of an op from the world description and the oracle tables. -/
 def envOf (j : Json) : Except String (Jtp.Env Doc) := do
@@ -45,9 +46,13 @@ def envOf (j : Json) : Except String (Jtp.Env Doc) := do
     let b ← (p[0]?.getD Json.null).getStr?
     let d : Option Doc := match p[1]? with
       | some o => match o.getObjVal? "stamp" with
-        | .ok (Json.str s) => some ⟨s.toList⟩
+        | .ok (Json.str s) =>
+          let t : Option JVal := match o.getObjVal? "tree" with
+            | .ok tj => (toJVal tj).toOption
+            | _ => none
+          some ⟨s.toList, t⟩
         | _ => match o.getObjVal? "null" with
-          | .ok _ => some ⟨"<nullmap>".toList⟩
+          | .ok _ => some ⟨"<nullmap>".toList, none⟩
           | _ => none
       | none => none
     pure (b.toList, d)
